@@ -32,7 +32,14 @@ for l in open('/verif/properties.jsonl'):
 wt = f'/tmp/wt/{pid}{rnd}'
 out = f'/tmp/seedout/{pid}{rnd}'
 avoid = ""
-if rnd:
+if rnd == 'r4':
+    avoid = ("  IN THIS ROUND the break must come out of a RESTRUCTURING, the way real regressions usually do: combine it with a plausible clean-up that touches two or more functions, "
+             "and let the defect be a detail the clean-up got wrong. Examples of the shape (find your own): extract a helper out of a loop body or an error path and lose one exit / one argument / one unlock in the move; "
+             "move a guard into the callee but leave one caller or one path unguarded; replace `defer mu.Unlock()` by explicit unlocks and miss an exit; turn an if/else-if chain into a switch and lose or reorder a case; "
+             "turn a closure into a method (or back) so that it sees a stale or shared value; merge two helpers and apply one's step twice or not at all; hoist an allocation or a computation out of a loop/closure; "
+             "rename a variable and reuse it so that the wrong one of two same-typed values is passed. The patch should read like a tidy refactoring commit in which the mistake is easy to overlook in review. "
+             "Earlier rounds already covered the direct one-line variants of most mechanisms; a restructured variant of an old idea is fine as long as the break is real.")
+elif rnd:
     avoid = "  Other people already produced the following ideas for this property - do NOT repeat them or close variants; find different mechanisms, functions or files: " + "; ".join(AVOID.get(pid, [])) + "."
 print(f"""You are helping to evaluate a verification tool for the open-source project Workiva/frugal (a Thrift-superset IDL compiler written in Go with Go/Java/Dart/Python generators, plus a Go runtime library under lib/go). Your job is to act as a "bug seeder": produce realistic source changes that BREAK one stated semantic property of the code base while still compiling and still passing the project's existing test suite.
 
